@@ -99,6 +99,15 @@ def C16_1_2(ctx, facts):
                               "head is %s, expected %s" % (seq[-1][1] if seq else None, want), f.where(b0))
     ctx.floor("sort_preferred|tail-cases", n, 12, "abstract inputs of the tail enumerated")
     ctx.assume("C16.1 enumerated tail: %s" % samples[:3])
+    # every mutation of the list inside sort_preferred (closures included) removes or inserts exactly one element
+    bodies = [f] + [facts.fns[k] for (_, _, _, k) in f.closures_created() if k in facts.fns]
+    for g in bodies:
+        for c in g.calls():
+            t0 = (c.t.get("argtys") or [""])[0]
+            if t0.startswith("&mut std::collections::VecDeque<std::net::SocketAddr>"):
+                m = norm(c.name).split("::")[-1]
+                ctx.check(m in ("remove", "push_front", "iter_mut"), "sort_preferred|mutator|%s" % m, "the list is mutated one element at a time (%s)" % m,
+                          "the list is mutated through %s, which can remove / add an unknown number of elements (e.g. every duplicate of an address)" % norm(c.name), c.where())
     # provenance of v4 / v6: the two removal orders both contain both removes
     ats = [c for c in f.calls() if c.matches(r"Option.*::and_then$") and "SocketAddr" in " ".join(c.t.get("targs") or [])]
     ctx.floor("sort_preferred|removals", len(ats), 4, "and_then(|idx| self.0.remove(idx)) sites")
